@@ -431,12 +431,12 @@ def run(ctx):
             bad.append('header')
         if bad:
             sw_s = sanitise(g['sw'])
-            if seg == 'midline':
-                key = 'line-split-across-segments'
-            elif not no_banner and looks_like_protocol(sw_s):
+            if not no_banner and 'header' not in bad and looks_like_protocol(sw_s):
                 key = 'software-token-looks-like-protocol'
-            elif not no_banner and split_by_space(sw_s, [sanitise(w) for w in g['words']]):
+            elif not no_banner and 'header' not in bad and split_by_space(sw_s, [sanitise(w) for w in g['words']]):
                 key = 'software-token-protocol-split-by-space'
+            elif seg == 'midline':
+                key = 'line-split-across-segments'
             else:
                 key = 'stream/%s/%s' % ('+'.join(bad), seg)
             ctx.violation(key, 'get_banner over %d segment(s) (%s) returns banner %s header %r; sent header lines %r and banner line %r' % (
